@@ -113,8 +113,11 @@ def main(argv=None):
     ap.add_argument('--jobs', type=int, default=int(os.environ.get('VERIF_JOBS', '0') or 0))
     ap.add_argument('--verbose', '-v', action='store_true')
     ap.add_argument('--no-evidence', action='store_true')
+    ap.add_argument('--setup', action='store_true')
     a = ap.parse_args(argv)
     sys.path.insert(0, VERIF)
+    if a.setup:
+        return setup(a)
     if a.replay:
         body = json.load(open(a.replay))
         a.pid = body['property_id']
@@ -122,6 +125,24 @@ def main(argv=None):
     if not a.pid:
         ap.error('property id required')
     return run(a)
+
+
+def setup(a) -> int:
+    """MANIFEST.setup_cmd: nothing to build (stdlib only); parse /repo once and load every rule module and the
+    operator catalogue so that a broken installation fails here and not inside a check."""
+    try:
+        prog = Program.from_repo(a.repo)
+        from mutants.catalog import all_mutants
+        n = len(all_mutants())
+        mods = [p for p in ALL if os.path.exists(os.path.join(VERIF, 'props', p.lower() + '.py'))]
+        for p in mods:
+            prop_module(p)
+        os.makedirs(os.path.join(VERIF, 'evidence'), exist_ok=True)
+        print(f"setup ok: {prog.stats()} ; {len(mods)} rule modules ; {n} edit operators")
+        return 0
+    except Exception as e:
+        print(f"setup failed: {type(e).__name__}: {e}")
+        return 2
 
 
 def run(a, replay_key=None) -> int:
